@@ -353,6 +353,32 @@ func runC15(r *Run) {
 		}
 		r.check(okVal, "C15.R7", "add|validated", av.pos(av.Decl), "only validated epoch infos are stored", "setEpochInfoUnchecked is not dominated by Validate() == nil")
 		r.check(okDup, "C15.R7", "add|no-duplicate", av.pos(av.Decl), "an identifier is registered once", "setEpochInfoUnchecked is not dominated by !Has(identifier)")
+		// ... and the duplicate test looks under the key the record is stored under: the same key shape
+		// (conversion of <x>.Identifier, on a store with the same prefix) as the writer's Set
+		keyShape := func(v *FnView, e ast.Expr) string {
+			s := exprString(e)
+			s = strings.ReplaceAll(s, ip+".", "X.")
+			if v != av {
+				if p0 := paramName(v, 1); p0 != "" {
+					s = strings.ReplaceAll(s, p0+".", "X.")
+				}
+			}
+			return s
+		}
+		hasShape, setShape := "", ""
+		for _, c := range av.CallsNamed("Has") {
+			if len(c.Args) == 1 {
+				hasShape = keyShape(av, c.Args[0])
+			}
+		}
+		if sv := w.View("x/epochs/keeper", "Keeper.setEpochInfoUnchecked"); sv != nil {
+			for _, c := range sv.CallsNamed("Set") {
+				if len(c.Args) == 2 {
+					setShape = keyShape(sv, c.Args[0])
+				}
+			}
+		}
+		r.check(hasShape != "" && hasShape == setShape, "C15.R7", "add|duplicate-test-same-key", av.pos(av.Decl), "the duplicate test and the store write use the same key", "AddEpochInfo tests Has("+hasShape+") while the record is stored under "+setShape+": the test never finds an existing identifier, which is then overwritten (its number restarts, its notifications are delivered again)")
 	}
 	// ---- R5
 	for _, m := range []string{"AfterEpochEnd", "BeforeEpochStart"} {
